@@ -177,7 +177,7 @@ def check(case, ctx):
     for c in range(C):
         size_c = int(np.sum(got_lab == c + 1))
         want = np.sum(null >= size_c) / k
-        if abs(pvals[c] - want) > 1e-12:
+        if not (abs(pvals[c] - want) <= 1e-12):
             fails.append(Failure("nbs_bct:pvalue-not-fraction-of-null-at-least-size",
                                  "component %d has %d connections; p=%r but #(null >= size)/k = %r (null=%s)" % (c + 1, size_c, pvals[c], want, null.tolist()), case))
             break
@@ -198,7 +198,7 @@ def check(case, ctx):
             if np.any(np.abs(tp - thresh) < 1e-9) or (paired and np.any(np.isinf(tp))):
                 continue
             want = _max_component(n, ii, jj, tp > thresh, ctx)
-            if null[u] != want:
+            if not (null[u] == want):
                 fails.append(Failure("nbs_bct:null-value-not-largest-component-of-its-relabelling",
                                      "permutation %d: null=%r, largest suprathreshold component of that relabelling has %d connections" % (u, null[u], want), case))
                 break
